@@ -10,7 +10,7 @@ import (
 func init() {
 	register(&propDef{
 		ID:       "C02",
-		Explain:  "Decided: the complete single-step decision table of (*cache.Target).gnmiUpdate over the orderings of the new and the stored timestamp (<,=,>), proto-equality, the future-threshold atoms (threshold sign, ahead of clock, first update, ahead of latest timestamp), evaluated on every CFG path: stale (<, or = and identical) => ErrStale and no tree write; = and different => Leaf.Update(n), nil error; > => Leaf.Update(n) unless exactly the future condition holds => ErrFuture and no write; any non-nil error => no Leaf.Update / Tree.Add. The delete condition passed to WalkDeleted is true iff stored < delete timestamp, and ctree.internalDelete removes a leaf only on the true edge of the condition. Also decided: in the arm of Target.GnmiUpdate that splits a combined notification both loops are left only through their headers and every path from the update loop to a return passes the delete loop (a delete is applied whatever happened to the updates it travelled with). Round-3 additions: the (updates, deletes) dispatch table of Target.GnmiUpdate; the latest accepted timestamp only moves forward and is advanced by every accepted non-metadata update (C15.latest, borrowed) - the future-timestamp rejection compares with it. Round-4 addition: the tree unlinks exactly what the timestamp condition accepted (C09.prune-guard / select / conditional, borrowed): a branch is reported removable only when no child is left.",
+		Explain:  "Decided: the complete single-step decision table of (*cache.Target).gnmiUpdate over the orderings of the new and the stored timestamp (<,=,>), proto-equality, the future-threshold atoms (threshold sign, ahead of clock, first update, ahead of latest timestamp), evaluated on every CFG path: stale (<, or = and identical) => ErrStale and no tree write; = and different => Leaf.Update(n), nil error; > => Leaf.Update(n) unless exactly the future condition holds => ErrFuture and no write; any non-nil error => no Leaf.Update / Tree.Add. The delete condition passed to WalkDeleted is true iff stored < delete timestamp, and ctree.internalDelete removes a leaf only on the true edge of the condition. Also decided: in the arm of Target.GnmiUpdate that splits a combined notification both loops are left only through their headers and every path from the update loop to a return passes the delete loop (a delete is applied whatever happened to the updates it travelled with). Round-3 additions: the (updates, deletes) dispatch table of Target.GnmiUpdate; the latest accepted timestamp only moves forward and is advanced by every accepted non-metadata update (C15.latest, borrowed) - the future-timestamp rejection compares with it. Round-4 addition: the tree unlinks exactly what the timestamp condition accepted (C09.prune-guard / select / conditional, borrowed): a branch is reported removable only when no child is left. Round-5 addition: gnmiRemove hands every non-empty joined path to the tree's conditional delete on every path that consults the tree - no exact-path lookup (which does not understand wildcards) may decide that the delete is skipped.",
 		NotCover: "the per-leaf invariant over sequences of notifications (follows by induction only with C09/C10), clock behaviour, atomic-container interplay, that GetLeaf/Add/Update address the same leaf",
 		Run:      runC02,
 	})
